@@ -1910,7 +1910,8 @@ fn bitcast(casts: &[Bitcast], operands: &[String], results: &mut Vec<String>) {
 fn perform_cast(operand: &str, cast: &Bitcast) -> String {
     match cast {
         Bitcast::None => operand.to_owned(),
-        Bitcast::I32ToI64 => format!("i64::from({operand})"),
+        // zero-extend, as the canonical ABI does when joining `i32` into `i64`
+        Bitcast::I32ToI64 => format!("i64::from(({operand}) as u32)"),
         Bitcast::F32ToI32 => format!("({operand}).to_bits() as i32"),
         Bitcast::F64ToI64 => format!("({operand}).to_bits() as i64"),
         Bitcast::I64ToI32 => format!("{operand} as i32"),
